@@ -546,6 +546,12 @@ func checkRelational(c *core.Ctx, r *core.Rand, conc, abs cty.Value, Tn *m.TNode
 		return fmt.Sprintf("Convert(%#v, %s) vs weakened Convert(%#v, same) [%s]", conc, Tn, abs, label)
 	}
 	switch {
+	case au.IsWhollyKnown():
+		// the refinements pinned the weakening down to a known value: two known
+		// inputs, nothing is claimed about them here
+		c.Count("relational:not-judged:weakening-collapsed-to-known")
+	case hasNegZero(conc):
+		c.Count("relational:not-judged:negative-zero")
 	case oa.ok() && oc.ok():
 		c.Count("clause:relational-admits:" + top)
 		if why := mon.Admits(oa.val, oc.val); why != "" {
